@@ -62,7 +62,7 @@ def d1(ctx, F, label=""):
     hs = K.handle_stream_body(ctx, F)
     gl, n = under_lock_rule(ctx, F, hs, "handle_stream" + label)
     ctx.floor("C17.D1.guard-locals" + label, len(gl), 1)
-    sd = F.one_body(r"^selium_server::server::Server::shutdown::\{closure#0\}$")
+    sd = (F.find_bodies(r"^selium_server::server::Server::shutdown::\{closure#0\}$") or F.find_bodies(r"^selium_server::server::Server::listen::\{closure#0\}$") or [F.one_body(r"^selium_server::server::Server::shutdown::\{closure#0\}$")])[0]
     ctx.touch(sd)
     # (shutdown deliberately keeps the map locked while it waits for the routers: that is C16's business, not a stall of another topic)
     # lock order: topics before topic_handles everywhere both are taken
